@@ -76,12 +76,19 @@ def conc(x):
 
 
 def pick(i, n):
-    """Concretise an int known to lie in range(n) by an explicit comparison chain: one path per value, no duplicates
-    (deep_realize's model-value decisions were measured to revisit values: 26 paths for 15 values)."""
-    for x in range(n):
-        if i == x:
-            return x
-    raise AssertionError("pick: value outside range(%d)" % n)
+    """Concretise an int known (by the obligation's precondition) to lie in range(n), by bisection on solver decisions:
+    exactly one path per value, log2(n) decisions each (deep_realize's model-value decisions were measured to revisit
+    values: 26 paths for 15 values)."""
+    lo, hi = 0, n
+    if not (0 <= i < n):
+        raise AssertionError("pick: value outside range(%d)" % n)
+    while hi - lo > 1:
+        mid = (lo + hi) // 2
+        if i < mid:
+            hi = mid
+        else:
+            lo = mid
+    return lo
 
 
 @contextlib.contextmanager
